@@ -229,6 +229,17 @@ var d4 = G[int](1)
 var d5 Box[T]
 
 func f5(t T) int { return t.M() + t.F }
+
+// dot-imported and local names in every element position of composite literals: keys of map, array and
+// slice literals are ordinary expressions, keys of struct literals are field names
+const localKey = 1
+
+var d6 = map[int]string{C: "c", localKey: "l"}
+var d7 = [...]string{C: "c", localKey: "l"}
+var d8 = []int{C: V, localKey: C}
+var d9 = T{F: C, G: "g"}
+var d10 = map[T]Box[int]{{F: C}: {Val: V}}
+var d11 = map[int]int{q.Default.N: C}
 `},
 	{Name: "duplicate-name", DotFree: true, GoastErr: true, NoTypeCheck: true, Src: `package app
 
